@@ -78,14 +78,14 @@ func (d *wireDir) pump(src, dst net.Conn) {
 // linkedPair is two real routers joined by a real link (real handshake, real link workers)
 // over in-memory connections relayed by the harness.
 type linkedPair struct {
-	w        *rworld
-	A, B     *rnode
-	la, lb   peering.Link
-	ab, ba   *wireDir
-	connA    net.Conn
-	connB    net.Conn
-	errA     error
-	errB     error
+	w      *rworld
+	A, B   *rnode
+	la, lb peering.Link
+	ab, ba *wireDir
+	connA  net.Conn
+	connB  net.Conn
+	errA   error
+	errB   error
 }
 
 // newLinkedPair builds the routers and runs the real link setup on both ends; A is the client.
